@@ -60,6 +60,14 @@ func (r recIPAM) AutoAssign(ctx context.Context, args ipam.AutoAssignArgs) (*ipa
 	r.s.rec.aaErr = err != nil
 	r.s.rec.got4 = v4 != nil && len(v4.IPs) > 0
 	r.s.rec.got6 = v6 != nil && len(v6.IPs) > 0
+	for _, as := range []*ipam.IPAMAssignments{v4, v6} {
+		if as != nil {
+			for _, ip := range as.IPs {
+				b, o := r.s.r.Env.Locate(cnet.IP{IP: ip.IP})
+				r.s.rec.ret = append(r.s.rec.ret, [2]int{b, o})
+			}
+		}
+	}
 	return v4, v6, err
 }
 
@@ -84,7 +92,9 @@ type record struct {
 	aaCalled, aaErr, got4, got6, rel4, rel6 bool
 	relMarks                                []int // step-log length at the start of each ReleaseByHandle
 	relHandles                              []string
-	start                                   int // step-log length when the command began
+	start                                   int             // step-log length when the command began
+	ret                                     [][2]int        // addresses AutoAssign returned to the plugin
+	before                                  map[[2]int]bool // addresses live under the container's handle when the command began
 }
 
 type fakePools struct {
@@ -105,6 +115,8 @@ type st struct {
 	addOK   map[int][2]int // container -> families (v4,v6) of its last successful add not yet deleted
 	pending map[int]string // tid -> "cniadd c v4 v6" / "cnidel c"
 	rec     record
+	// held: per container, the addresses returned by its successful ADDs since its last DEL attempt
+	held map[int]map[[2]int]bool
 }
 
 func (s *st) fail(sig, desc string, info map[string]any) {
@@ -156,7 +168,7 @@ func (s *st) extraOp(r *ipamkv.Runner, tid int, op string, kv map[string]string)
 		s.pending[tid] = fmt.Sprintf("cniadd %d %s %s", c, kv["v4"], kv["v6"])
 		return &ipamkv.ThreadCtx{Op: "cniadd", Host: host, Handle: 3*c + 1}, func(bc bapi.Client) *ipamkv.OpResult {
 			s.cur = bc
-			s.rec = record{start: len(r.Sc.Log)}
+			s.rec = record{start: len(r.Sc.Log), before: s.liveSet(3*c + 1)}
 			return &ipamkv.OpResult{Err: ipamplugin.VerifCmdAdd(s.cniArgs(c, k8s, host, v4, v6))}
 		}
 	case "cnidel":
@@ -171,6 +183,34 @@ func (s *st) extraOp(r *ipamkv.Runner, tid int, op string, kv map[string]string)
 }
 
 func atoi(x string) int { n := 0; fmt.Sscanf(x, "%d", &n); return n }
+
+// liveSet: the addresses live for handle id hid in the store.
+func (s *st) liveSet(hid int) map[[2]int]bool {
+	m := map[[2]int]bool{}
+	for b, blk := range s.r.Env.World().Blocks {
+		for o, sl := range blk.Slots {
+			if sl == fmt.Sprintf("L%d", hid) {
+				m[[2]int{b, o}] = true
+			}
+		}
+	}
+	return m
+}
+
+// checkHeld: every address returned by a successful ADD that no DEL has followed is still
+// allocated to the container's handle in the datastore.
+func (s *st) checkHeld(after string) {
+	for c, set := range s.held {
+		live := s.liveSet(3*c + 1)
+		for a := range set {
+			if !live[a] {
+				s.fail("held-address-released-without-del", "an address returned by a successful CNI ADD is no longer allocated to the container's handle although no DEL was issued for the container",
+					map[string]any{"container": c, "block": a[0], "ordinal": a[1], "after": after})
+				delete(set, a)
+			}
+		}
+	}
+}
 
 // liveOf: live addresses per family (v4, v6) recorded for handle id hid.
 func (s *st) liveOf(hid int) (int, int) {
@@ -192,6 +232,7 @@ func (s *st) liveOf(hid int) (int, int) {
 func (s *st) onEnd(r *ipamkv.Runner, tid int, ctx *ipamkv.ThreadCtx, res *ipamkv.OpResult) {
 	p, ok := s.pending[tid]
 	if !ok {
+		s.checkHeld(ctx.Op)
 		return
 	}
 	delete(s.pending, tid)
@@ -204,6 +245,7 @@ func (s *st) onEnd(r *ipamkv.Runner, tid int, ctx *ipamkv.ThreadCtx, res *ipamkv
 	h1v4, h1v6 := s.liveOf(3*c + 1)
 	switch w[0] {
 	case "cnidel":
+		delete(s.held, c) // a DEL (even a failing one) may legitimately release them
 		// observation for the model: which handles were released, in which order their blocks were
 		// visited, where faults were injected; output: verdict, program-model agreement, what remains
 		h1, h2 := 3*c+1, 3*c+2
@@ -270,6 +312,22 @@ func (s *st) onEnd(r *ipamkv.Runner, tid int, ctx *ipamkv.ThreadCtx, res *ipamkv
 		s.h.Op(fmt.Sprintf("cni %d add w4=%s w6=%s aaerr=%s g4=%s g6=%s", tid, w[2], w[3], b01(s.rec.aaErr || !s.rec.aaCalled), b01(s.rec.got4), b01(s.rec.got6)),
 			fmt.Sprintf("%s rel4=%s rel6=%s nonrel=%s", status, b01(s.rec.rel4), b01(s.rec.rel6), map[bool]string{true: "1", false: "-"}[res.Err == nil]))
 		s.h.Count("add:" + status)
+		if res.Err != nil {
+			after := s.liveSet(3*c + 1)
+			for a := range s.rec.before {
+				if !after[a] {
+					s.fail("failed-add-released-held-address", "a failed CNI ADD released an address the container's handle held before it",
+						map[string]any{"container": c, "block": a[0], "ordinal": a[1]})
+				}
+			}
+		} else {
+			if s.held[c] == nil {
+				s.held[c] = map[[2]int]bool{}
+			}
+			for _, a := range s.rec.ret {
+				s.held[c][a] = true
+			}
+		}
 		if res.Err == nil {
 			if (w[2] == "1" && h1v4 < 1) || (w[3] == "1" && h1v6 < 1) {
 				s.fail("add-missing-family", "a successful CNI ADD does not hold an address for every requested family", map[string]any{"container": c, "v4": h1v4, "v6": h1v6, "want4": w[2], "want6": w[3]})
@@ -278,9 +336,12 @@ func (s *st) onEnd(r *ipamkv.Runner, tid int, ctx *ipamkv.ThreadCtx, res *ipamkv
 			s.h.Count("add:failed-but-retains") // allowed by the property (DEL must clean it up)
 		}
 	}
+	s.checkHeld(w[0])
 }
 
 var k8sOf = map[int]bool{}
+
+// (checkHeld runs after every CNI command: see the end of onEnd)
 
 func (s *st) isK8s(tid int) bool { return k8sOf[tid] }
 
@@ -293,6 +354,7 @@ func (s *st) exec(line string) {
 	case "new":
 		s.r.Exec(line)
 		s.addOK, s.pending = map[int][2]int{}, map[int]string{}
+		s.held = map[int]map[[2]int]bool{}
 		k8sOf = map[int]bool{}
 	case "begin":
 		if len(w) >= 3 && (w[2] == "cniadd" || w[2] == "cnidel") {
@@ -308,8 +370,70 @@ func (s *st) exec(line string) {
 
 // gen: one case as a command script; fault positions are `step <tid> err` lines
 // interleaved by the online scheduler below.
+// drive runs the started command to completion (optionally with injected errors).
+func (s *st) drive(faulty bool) {
+	h := s.h
+	for steps := 0; steps < 400; steps++ {
+		rd := s.r.Ready()
+		if len(rd) == 0 {
+			break
+		}
+		f := ipamkv.FNone
+		if faulty && h.Chance(0.03) {
+			f = ipamkv.FError
+		}
+		s.exec(fmt.Sprintf("step %d %s", rd[0], f))
+	}
+	s.exec("quiesce")
+}
+
+// runHalfFail: ADD(success) ... one family gets exhausted by other workloads ... ADD for the SAME
+// container (half fails: dual-stack rollback) ... more commands ... DEL.
+func (s *st) runHalfFail() {
+	h := s.h
+	s.nCont = 2
+	v4pool := rt.Pick(h, []string{"10.0.0.0/30/31", "10.0.0.0/29/30"})
+	v6pool := rt.Pick(h, []string{"fd00::/126/127", "fd00::/125/126"})
+	s.exec(fmt.Sprintf("new hosts=2 handles=6 hnames=%s pools=%s;%s cool=%d strict=0 maxblk=0", hnames(2), v4pool, v6pool, rt.Pick(h, []int{0, 0, 300})))
+	k8s := h.Intn(2)
+	tid := 0
+	next := func(line string) {
+		tid++
+		s.exec(fmt.Sprintf(line, tid))
+		s.drive(false)
+	}
+	first6 := h.Intn(3) > 0
+	next(fmt.Sprintf("begin %%d cniadd c=0 host=0 k8s=%d v4=1 v6=%d", k8s, map[bool]int{true: 1, false: 0}[first6]))
+	if h.Chance(0.3) {
+		next(fmt.Sprintf("begin %%d cniadd c=1 host=0 k8s=%d v4=1 v6=1", k8s))
+	}
+	// exhaust one family with foreign allocations
+	if h.Chance(0.5) {
+		next("begin %d autoassign host=" + fmt.Sprint(h.Intn(2)) + " h=0 n=0 n6=8")
+	} else {
+		next("begin %d autoassign host=" + fmt.Sprint(h.Intn(2)) + " h=0 n=8")
+	}
+	// second dual-stack ADD for the same container: one family short
+	next(fmt.Sprintf("begin %%d cniadd c=0 host=0 k8s=%d v4=1 v6=1", k8s))
+	for i := 0; i < h.Intn(3); i++ {
+		switch h.Intn(3) {
+		case 0:
+			next(fmt.Sprintf("begin %%d cniadd c=%d host=0 k8s=%d v4=1 v6=1", h.Intn(2), k8s))
+		case 1:
+			next(fmt.Sprintf("begin %%d cnidel c=1 host=0 k8s=%d", k8s))
+		default:
+			next("begin %d autoassign host=0 h=0 n=1")
+		}
+	}
+	next(fmt.Sprintf("begin %%d cnidel c=0 host=0 k8s=%d", k8s))
+}
+
 func (s *st) runGenerated() {
 	h := s.h
+	if h.Intn(4) == 0 {
+		s.runHalfFail()
+		return
+	}
 	nc := 1 + h.Intn(2)
 	s.nCont = nc
 	v6pool := rt.Pick(h, []string{"fd00::/125/126", "fd00::/126/127", "fd00::/125/126"})
@@ -377,7 +501,7 @@ func main() {
 	devnull, _ := os.OpenFile(os.DevNull, os.O_WRONLY, 0)
 	os.Stdout = devnull // cmdAdd prints the CNI result to stdout
 	h.Rule = "case = 1-2 containers on 2 hosts, one small IPv4 pool (+ usually one small IPv6 pool), cooldown 0/300s; 3..10 SEQUENTIAL commands over {CNI ADD (v4 / v4+v6 / v6), CNI DEL, legacy workload-ID allocation, foreign allocations exhausting the pool}, " +
-		"two thirds of the cases with a datastore error injected at 3% of the backend calls of the IPAM client (so at / inside every IPAM call); non-trivial = a case containing a failed command and a successful DEL"
+		"one case in four is a half-failure script: ADD(success) ... foreign allocations exhaust one family ... dual-stack ADD for the SAME container (rollback) ... DEL; of the others two thirds with a datastore error injected at 3% of the backend calls of the IPAM client (so at / inside every IPAM call); non-trivial = a case containing a failed command and a successful DEL"
 	mk := func() *st {
 		s := &st{h: h, r: ipamkv.NewRunner(h), lock: filepath.Join(h.OutDir, "ipam.lock"), nCont: 2}
 		s.r.ExtraOp = s.extraOp
